@@ -175,6 +175,9 @@ func (c *Ctx) decompose(bits uint, x T) {
 	if bits > 64 {
 		bits = 64
 	}
+	if strings.Contains(x, "q.") {
+		return // mentions a bound variable: no global fact
+	}
 	key := fmt.Sprintf("bits%d:%s", bits, x)
 	if c.factsDone[key] {
 		return
@@ -235,6 +238,22 @@ func (c *Ctx) bitop(op string, bits uint, x, y T) T {
 		fs = append(fs, eq(br, v))
 	}
 	c.sc.assume(and(fs...))
+	// the same, for symbolic bit positions
+	{
+		bx, by, br := app("bit", x, "n"), app("bit", y, "n"), app("bit", r, "n")
+		var v T
+		switch op {
+		case "and":
+			v = and(bx, by)
+		case "or":
+			v = or(bx, by)
+		case "xor":
+			v = app("xor", bx, by)
+		case "andnot":
+			v = and(bx, not(by))
+		}
+		c.sc.assume(fmt.Sprintf("(forall ((n Int)) (! (=> (and (<= 0 n) (< n %d)) (= %s %s)) :pattern (%s)))", bits, br, v, br))
+	}
 	return r
 }
 
